@@ -440,3 +440,126 @@ def rule_N3(ctx):
         rec(top, '')
         r.constructs.add(mod)
     return r
+
+
+# ---------------------------------------------------------------------------------------------- MEMO
+# The state each mutable container is made of (confirmed by the store census of the tree: every attribute store on an
+# object of these classes goes to one of these).  Anything else stored on such an object is extra state; if its value is
+# computed from one of these fields it is a memo, and a memo is right only while every writer of its source refreshes it.
+CONTAINER_STATE = {
+    'BitStore': {'_bitarray', 'modified_length', 'immutable'},
+    'Bits': {'_bitstore', '_filename'}, 'BitArray': {'_bitstore', '_filename'},
+    'ConstBitStream': {'_bitstore', '_filename', '_pos', 'pos'}, 'BitStream': {'_bitstore', '_filename', '_pos', 'pos'},
+    'Array': {'_dtype', 'data'},
+}
+MEMO_SOURCES = {'BitStore': {'_bitarray'}, 'Bits': {'_bitstore'}, 'BitArray': {'_bitstore'}, 'ConstBitStream': {'_bitstore'},
+                'BitStream': {'_bitstore'}, 'Array': {'_dtype', 'data'}}
+
+
+def _writers_of(ctx, cls, field):
+    """Functions that change ``field`` of an object of class ``cls``: stores of the field and in-place changes of it."""
+    from ..resolve import BITARRAY_MUTATORS
+    from ..effects import bitstore_mutators
+    m = ctx.m
+    out = {}
+    store_mut = set(bitstore_mutators(ctx)) if field in ('_bitstore', 'data') else set()
+    classes = [c for c in m.classes if c == cls or (cls in FAMILY and c in FAMILY)]
+    for c in classes:
+        for name, f in m.classes[c].methods.items():
+            if name in ('__init__', '__new__'):
+                continue
+            for x in own_walk(f.node):
+                tgt = None
+                if isinstance(x, ast.Attribute) and isinstance(x.ctx, (ast.Store, ast.Del)) and x.attr == field and ast.unparse(x.value) == 'self':
+                    tgt = x
+                elif isinstance(x, ast.AugAssign) and ast.unparse(x.target) == f'self.{field}':
+                    tgt = x
+                elif isinstance(x, ast.Subscript) and isinstance(x.ctx, (ast.Store, ast.Del)) and ast.unparse(x.value) == f'self.{field}':
+                    tgt = x
+                elif isinstance(x, ast.Call) and isinstance(x.func, ast.Attribute) and ast.unparse(x.func.value) == f'self.{field}' and \
+                        (x.func.attr in BITARRAY_MUTATORS or x.func.attr in store_mut or
+                         (field == 'data' and x.func.attr in ('append', 'prepend', 'insert', 'overwrite', 'reverse', 'byteswap', 'clear', 'set', 'invert'))):
+                    tgt = x
+                if tgt is not None:
+                    out.setdefault(f.key, (f, tgt))
+    return out
+
+
+def rule_MEMO(ctx):
+    """No stale memo: a value computed from a container's content (its bitarray, store, dtype or data) and kept on the
+    container is refreshed by every function that changes that content."""
+    m = ctx.m
+    r = RuleResult('MEMO', 'state kept on a mutable container besides its defining fields is refreshed by every writer of what it was computed from')
+    n = 0
+    for f in m.funcs.values():
+        if f.mod == '__main__':
+            continue
+        ctxs = ctx.R.contexts(f) or [None]
+        stores = [x for x in own_walk(f.node) if isinstance(x, ast.Attribute) and isinstance(x.ctx, ast.Store)]
+        if not stores:
+            continue
+        # locals computed from a field of some object: name -> set of 'obj.field' it was computed from
+        local_src = {}
+        for x in own_walk(f.node):
+            if isinstance(x, ast.Assign):
+                srcs = {ast.unparse(y) for y in ast.walk(x.value) if isinstance(y, ast.Attribute) and isinstance(y.value, ast.Name)}
+                for t in x.targets:
+                    for nm in ast.walk(t):
+                        if isinstance(nm, ast.Name) and isinstance(nm.ctx, ast.Store) and srcs:
+                            local_src.setdefault(nm.id, set()).update(srcs)
+        for st in stores:
+            recv = st.value
+            types = set()
+            for cx in ctxs:
+                t = ctx.R.analyse(f, cx).expr_type.get(id(recv))
+                if t:
+                    types |= set(t)
+            classes = [c for c in types if c in CONTAINER_STATE]
+            if not classes:
+                continue
+            n += 1
+            if all(st.attr in CONTAINER_STATE[c] for c in classes):
+                r.ok(f'{f.key}:{norm(st)}')
+                continue
+            cls = sorted(classes)[0]
+            # the value stored
+            holder = None
+            for x in own_walk(f.node):
+                if isinstance(x, (ast.Assign, ast.AnnAssign, ast.AugAssign)) and any(st is y for t in (x.targets if isinstance(x, ast.Assign) else [x.target]) for y in ast.walk(t)):
+                    holder = x
+            value = getattr(holder, 'value', None)
+            rtxt = ast.unparse(recv)
+            deps = set()
+            if value is not None:
+                for y in ast.walk(value):
+                    if isinstance(y, ast.Attribute) and ast.unparse(y.value) == rtxt and y.attr in MEMO_SOURCES[cls]:
+                        deps.add(y.attr)
+                    if isinstance(y, ast.Call) and isinstance(y.func, ast.Attribute) and ast.unparse(y.func.value) == rtxt:
+                        deps |= MEMO_SOURCES[cls] if cls != 'Array' else set()      # a method of the object: reads its content
+                    if isinstance(y, ast.Name) and y.id in local_src:
+                        for s in local_src[y.id]:
+                            o, _, a = s.rpartition('.')
+                            if o == rtxt and a in MEMO_SOURCES[cls]:
+                                deps.add(a)
+            if not deps:
+                r.ok(f'{f.key}:{norm(st)}', {'instance': f.key, 'store': norm(holder or st), 'verdict': 'extra state, not computed from the content'})
+                continue
+            missing = []
+            for src in sorted(deps):
+                for wk, (wf, wnode) in sorted(_writers_of(ctx, cls, src).items()):
+                    if wk == f.key:
+                        continue
+                    refreshed = any(isinstance(y, ast.Attribute) and isinstance(y.ctx, (ast.Store, ast.Del)) and y.attr == st.attr for y in own_walk(wf.node))
+                    if not refreshed:
+                        missing.append((src, wf, wnode))
+            if missing:
+                src, wf, wnode = missing[0]
+                r.fail(f.key, holder or st, f"{cls}.{st.attr} is computed from the object's {'/'.join(sorted(deps))} and kept on it, but {len(missing)} function(s) "
+                       f"that change {'/'.join(sorted(deps))} never refresh it (first: {wf.key.split(':')[1]} at {norm(wnode)[:50]}): after such a change the "
+                       'kept value is stale and later operations use it', loc=f.loc(st),
+                       extra={'props': ['C14', 'C18', 'C09'] if cls == 'Array' else ['C07', 'C08', 'C09']})
+            else:
+                r.ok(f'{f.key}:{norm(st)}', {'instance': f.key, 'memo': st.attr, 'verdict': 'every writer of its source refreshes it'})
+    if n < 50:
+        raise AnalysisError(f'only {n} attribute stores on container objects found (floor 50)')
+    return r
